@@ -175,8 +175,11 @@ static inline std::string run_reference (const Prog &p, const Input &in, Obs &ob
 
 // ------------------------------------------------------------------ real engines
 static int g_lazy_level = 2;          // optimisation level used for the lazy interfaces
+static int g_max_depth = 2;
 static int g_min_depth = 0;           // smallest call depth given to entry (0 = no calls are executed)
 static bool g_check_addr_stability = false;
+static bool g_count_inlines = false;  // count call sites inlined by MIR_link (C04 non-triviality)
+static int g_inlined_sites = 0;
 static jmp_buf g_err_jb;
 static char g_err_msg[1024];
 static int g_err_code;
@@ -247,6 +250,19 @@ static inline std::string run_engine_l (const Loader &loader, Engine e, const st
   case E_LAZYBB: MIR_link (ctx, MIR_set_lazy_bb_gen_interface, NULL); break;
   default: MIR_link (ctx, MIR_set_gen_interface, NULL); break;
   }
+  if (g_count_inlines) {  // registers of an inlined body are renamed to .c<N>_<name>: N counts the inlined call sites
+    g_inlined_sites = 0;
+    for (MIR_module_t m = DLIST_HEAD (MIR_module_t, *MIR_get_module_list (ctx)); m != NULL; m = DLIST_NEXT (MIR_module_t, m))
+      for (MIR_item_t it = DLIST_HEAD (MIR_item_t, m->items); it != NULL; it = DLIST_NEXT (MIR_item_t, it))
+        if (it->item_type == MIR_func_item && it->u.func->vars != NULL) {
+          int mx = 0;
+          for (size_t k = 0; k < VARR_LENGTH (MIR_var_t, it->u.func->vars); k++) {
+            const char *nm = VARR_GET (MIR_var_t, it->u.func->vars, k).name;
+            if (nm[0] == '.' && nm[1] == 'c' && isdigit ((unsigned char) nm[2])) mx = std::max (mx, atoi (nm + 2));
+          }
+          g_inlined_sites += mx;
+        }
+  }
   MIR_item_t entry = find_item (ctx, "entry");
   if (!entry) return "entry not found";
   // public addresses of all functions: they must stay valid and unchanged across the switch from stub to code
@@ -298,7 +314,7 @@ static inline std::string run_engine_l (const Loader &loader, Engine e, const st
 // ------------------------------------------------------------------ inputs
 static inline Input gen_input (CS &cs) {
   Input in;
-  in.depth = (int64_t) cs.range (g_min_depth, 2);
+  in.depth = (int64_t) cs.range (g_min_depth, g_max_depth);
   in.a0 = pick_int (cs);
   in.a1 = pick_int (cs);
   in.x0 = pick_d (cs, false);
